@@ -165,15 +165,9 @@ def get_txt_pos_ml(toks, main_lang, parms):
         if type(t) is not defs.LanguageToken:
             cur_sec.append(t)
             continue
-        if t.lang == lang_stack[-1]:
-            continue
-        txt, pos = get_txt_pos(cur_sec)
-        cur_sec = []
-        if txt:
-            sections.append(LanguageSection(
-                        lang_stack[-1], switch_back, switch_brk, txt, pos))
-        switch_back = t.back
-        switch_brk = t.brk
+        # NB: always update the stack, so that nested switches stay balanced
+        #     (also for a switch to the language already in force)
+        lang = lang_stack[-1]
         if t.back:
             if len(lang_stack) > 1:
                 lang_stack.pop()
@@ -182,6 +176,16 @@ def get_txt_pos_ml(toks, main_lang, parms):
                 lang_stack[-1] = t.lang
             else:
                 lang_stack.append(t.lang)
+        if lang_stack[-1] == lang:
+            # no change of language
+            continue
+        txt, pos = get_txt_pos(cur_sec)
+        cur_sec = []
+        if txt:
+            sections.append(LanguageSection(
+                        lang, switch_back, switch_brk, txt, pos))
+        switch_back = t.back
+        switch_brk = t.brk
     txt, pos = get_txt_pos(cur_sec)
     if txt:
         sections.append(LanguageSection(
